@@ -119,7 +119,8 @@ def report_pairs(report, acl_lines):
 
 def exec_history(job):
     from cisco_acl import Acl, Ace, Remark, Address
-    kw = dict(platform=job["plat"], version=job["ver"], port_nr=job.get("port_nr", False), protocol_nr=job.get("protocol_nr", False))
+    kw = dict(platform=job["plat"], version=job["ver"], port_nr=job.get("port_nr", False), protocol_nr=job.get("protocol_nr", False),
+              max_ncwb=job.get("max_ncwb", 16))
     vm = job["vmajor"]
     events = []
     base = dict(tid=job["tid"], exc="", ret_int=0, ret_num=[0, 0], flag=False, plat="", s=[0, 0], d=[0, 0], prefix="", perm=[], idx=0,
@@ -135,7 +136,11 @@ def exec_history(job):
                 for a in (x.srcaddr, x.dstaddr):
                     if a.type == "addrgroup" and a.addrgroup in job.get("groups", {}):
                         # the way cisco_acl.acls() attaches members: Address objects of the ACL's platform and version
-                        a.items = [Address(m, platform=job["plat"], version=job["ver"]) for m in job["groups"][a.addrgroup]]
+                        mem_objs = [Address(m, platform=job["plat"], version=job["ver"]) for m in job["groups"][a.addrgroup]]
+                        if job.get("attach") == "append":     # exactly what acls() does: append to the live member list
+                            a.items.extend(mem_objs)
+                        else:
+                            a.items = mem_objs
             if job.get("notes"):
                 x.note = f"n{k}"
             k += 1
@@ -418,7 +423,13 @@ def make_history(rng, tid, weights, nops=None, plat=None, **seedkw):
             ops.append(dict(act="DeleteShadow", skip=op["skip"], expect_empty=True))
         if op["act"] == "Copy" or op["act"] == "DataRoundTrip":
             ops.append(dict(act="TwinOp", op=rng.choice(["platform", "resequence", "pop", "note", "members", "ports", "line", "sort"])))
-    return dict(tid=tid, plat=plat, ver=ver, vmajor=vm, header=header, lines=lines, groups=gdict,
+    for name in list(gdict):     # a group may list an address twice (same or another spelling): still two members
+        if gdict[name] and rng.random() < 0.25:
+            m0 = rng.choice(gdict[name])
+            alt = {"host " + m0.split()[0]: None} if m0.endswith(" 0.0.0.0") else {}
+            gdict[name] = gdict[name] + [rng.choice(list(alt) + [m0])]
+    return dict(tid=tid, plat=plat, ver=ver, vmajor=vm, header=header, lines=lines, groups=gdict, attach=rng.choice(["set", "append"]),
+                max_ncwb=rng.choice([16, 16, 16, 20, 8, 30]),
                 group_by=rng.choice(["", "", "= "]) if seedkw.get("headings", True) else "", notes=rng.random() < 0.5,
                 port_nr=rng.random() < 0.3, protocol_nr=rng.random() < 0.3, ops=ops, origin="random-history")
 
